@@ -1099,8 +1099,10 @@ def run_manager_script(sc: dict):
             else:
                 mops.append({"op": "removeIid", "iid": op[1]})
                 mgr.remove_iid(op[1])
-        except KeyError:
-            raised = "KeyError"
+        except Exception as ex:  # noqa: BLE001 - an exception out of pyhap is the script's outcome
+            if not dbrig.from_pyhap(ex):
+                raise
+            raised = type(ex).__name__
             break
         if sc["policy"]:
             held = list(mgr.iids.values())
